@@ -387,9 +387,20 @@ def task_seq(ctx: Ctx, shard: int, n: int) -> None:
     auto = st.one_of(st.just(0), st.integers(-5, 5), ints_biased(-DAY, DAY, (10**9,)))
     zones = ["UTC", "Europe/London", "America/New_York", "Pacific/Apia", "Asia/Kathmandu", "fixed:3600", "fixed:-64800"]
 
+    from checks import c06
+
     def body(now, au, ops, zid, cid, getters):
         ctx.case("seq", {"now": now, "auto": au, "ops": ops})
         ctx.case("zoned", {"now": max(Z.INST_MIN + 10**15, min(Z.INST_MAX - 10**15, now)), "auto": au, "zone": zid, "cal": cid, "getters": getters})
+        # reads that land exactly on (and 1 ns around) a zone transition after earlier reads inside the previous interval
+        if not zid.startswith("fixed:") and zid != "UTC":
+            ivs = c06.ref_intervals("bundled", c06.canonical_of("bundled", zid))
+            if len(ivs) > 2:
+                T_ = ivs[1 + abs(now) % (len(ivs) - 1)][0]
+                step = (abs(au) or 1) * (1 if au >= 0 else -1)
+                j = 1 + abs(now) % 3
+                for dl in (0, -1, 1):
+                    ctx.case("zoned", {"now": T_ + dl - step * j, "auto": step, "zone": zid, "cal": "ISO" if dl else cid, "getters": (getters * 3)[: j + 2]})
 
     run_hypothesis(
         body,
